@@ -63,6 +63,8 @@ struct Half {
     read: u64,
     /// (end offset, virtual ms) of every write, so that readers can timestamp frames exactly
     wlog: Vec<(u64, u64)>,
+    /// (cumulative octets read by the receiving end, virtual ms) per read
+    rlog: Vec<(u64, u64)>,
 }
 
 impl Half {
@@ -86,6 +88,7 @@ impl Half {
             written: 0,
             read: 0,
             wlog: Vec::new(),
+            rlog: Vec::new(),
         }
     }
     fn used(&self) -> usize {
@@ -507,6 +510,8 @@ impl TcpStream {
         }
         h.buf.drain(..n);
         h.read += n as u64;
+        let rd = h.read;
+        h.rlog.push((rd, now_ms()));
         if let Some(w) = h.writer_waker.take() {
             w.wake();
         }
@@ -710,6 +715,11 @@ impl Ctl {
         drop(c);
         log_event(if open { "window-open" } else { "window-closed" }, id, 0);
     }
+    /// How many unread octets this end's socket takes before the other end's writes block.
+    pub(crate) fn set_capacity(&self, n: usize) {
+        let mut c = self.conn.lock().unwrap();
+        c.halves[1 - self.side].capacity = n.max(1);
+    }
     pub(crate) fn window_open(&self) -> bool {
         self.conn.lock().unwrap().halves[1 - self.side].window_open
     }
@@ -765,6 +775,19 @@ impl Ctl {
     }
     pub(crate) fn id(&self) -> u64 {
         self.conn.lock().unwrap().id
+    }
+    /// Virtual time at which the other end had read `offset` octets of what this end wrote
+    /// (None: it has not read that far yet).
+    pub(crate) fn peer_read_time(&self, offset: u64) -> Option<u64> {
+        let c = self.conn.lock().unwrap();
+        let l = &c.halves[self.side].rlog;
+        let i = l.partition_point(|(end, _)| *end < offset);
+        l.get(i).map(|x| x.1)
+    }
+    /// How many octets this end has written so far.
+    pub(crate) fn bytes_written(&self) -> u64 {
+        let c = self.conn.lock().unwrap();
+        c.halves[self.side].wlog.last().map(|x| x.0).unwrap_or(0)
     }
     /// Virtual time at which the byte at `offset` (1-based count of bytes the other end has
     /// written so far) was written.
